@@ -159,6 +159,43 @@ def _worker(args):
         return ("error", f"{type(e).__name__}: {e}\n{traceback.format_exc()}", spec)
 
 
+def _regress_worker(args):
+    modname, prop, files = args
+    try:
+        mod = importlib.import_module(modname)
+        out = {}
+        for fn in files:
+            with open(os.path.join(env.REGRESS, prop, fn)) as f:
+                doc = json.load(f)
+            fail = mod.replay(doc["case"])
+            out[fn] = fail.to_json() if fail is not None else None
+        return ("ok", out)
+    except BaseException as e:  # noqa: BLE001
+        return ("error", f"{type(e).__name__}: {e}\n{traceback.format_exc()}")
+
+
+def _run_regress(modname, prop, files):
+    """replays run in a child process so that nothing they import (torch...) or arm (hooks)
+    lives in the parent that later forks the shard workers"""
+    if not files:
+        return {}
+    if os.environ.get("VERIF_INLINE"):
+        r = _regress_worker((modname, prop, files))
+    else:
+        from concurrent.futures import ProcessPoolExecutor
+        from concurrent.futures.process import BrokenProcessPool
+
+        ctx = multiprocessing.get_context("fork")
+        try:
+            with ProcessPoolExecutor(max_workers=1, mp_context=ctx) as pool:
+                r = list(pool.map(_regress_worker, [(modname, prop, files)]))[0]
+        except BrokenProcessPool:
+            raise HarnessError("the regression replay worker died")
+    if r[0] == "error":
+        raise HarnessError(f"regression replays failed:\n{r[1]}")
+    return r[1]
+
+
 def load_known_findings(prop):
     path = os.path.join(env.VERIF_ROOT, "known_findings.json")
     if not os.path.exists(path):
@@ -308,14 +345,13 @@ def run_check(modname, prop, tier, seed):
             if rp.get("property", prop) == prop:
                 known_by_replay[os.path.normpath(rp["file"])] = e
     if os.path.isdir(regress_dir):
-        for fn in sorted(os.listdir(regress_dir)):
-            if not fn.endswith(".json"):
-                continue
+        files = [fn for fn in sorted(os.listdir(regress_dir)) if fn.endswith(".json")]
+        replayed = _run_regress(modname, prop, files)
+        for fn in files:
             rel = os.path.normpath(os.path.join("regress", prop, fn))
-            with open(os.path.join(regress_dir, fn)) as f:
-                doc = json.load(f)
             regress_run += 1
-            fail = mod.replay(doc["case"])
+            fj = replayed[fn]
+            fail = Failure(fj["case"], fj["message"], fj["details"], fj["signature"]) if fj else None
             kf = known_by_replay.get(rel)
             if kf is not None and kf.get("status") == "open":
                 if fail is not None:
